@@ -70,7 +70,9 @@ def explore(ctx):
     yaml, yatiml = L.setup()
     rng = ctx.rng
     cases = LC.CaseBuffer(ctx)
-    for c in LC.gen_cases(ctx, ctx.budget(350, 8000), mutate_p=0.35, prop='C03'):
+    from props import c02
+    for c in itertools.chain(LC.gen_cases(ctx, ctx.budget(350, 8000), mutate_p=0.35, prop='C03'),
+                             LC.hierarchy_cases(ctx, ctx.budget(250, 5000))):
         cases.append(c)
         LC.record_distribution(ctx, c)
         nontrivial = polymorphic(c.spec, c.doc_type)
@@ -78,6 +80,9 @@ def explore(ctx):
         if len(ctx.samples) < 3 and nontrivial:
             ctx.sample(dict(text=c.text, type=repr(c.doc_type), outcome=c.real_out[0]))
         by = {x['name']: x for x in c.spec}
+        # the class a polymorphic position resolves to is the one the reference pipeline names
+        if nontrivial and c02.auto_recognised(c.spec):
+            c02.judge(ctx, c, yaml, yatiml, 'polymorphic')
         # abstract / unregistered classes never instantiated
         for e in c.real_out[2]:
             if e[0] == 'init' and e[1] in by:
@@ -91,11 +96,21 @@ def explore(ctx):
         if c.doc is not None and c.doc[0] == 'm' and c.doc[2] is None and c.doc_type[0] == 'cls' \
                 and c.real_out[0] == 'ok' and type(c.real_out[1]).__name__ in by:
             loaded_as = type(c.real_out[1]).__name__
-            for name in [x['name'] for x in c.spec if x.get('registered', True)] + ['Nonexistent']:
+            names = [x['name'] for x in c.spec if x.get('registered', True)]
+            for name in names + ['Nonexistent', '<uri>', '<handle>', '<primary>']:
                 text2 = '!' + name + ' ' + c.text
+                if name == '<uri>':
+                    text2 = '!<tag:example.org,2020:{}> {}'.format(loaded_as, c.text)
+                elif name == '<handle>':
+                    text2 = '%TAG !e! tag:example.org,2020:\n--- !e!{} {}'.format(loaded_as, c.text)
+                elif name == '<primary>':
+                    text2 = '%TAG ! tag:example.org,2020:\n--- !{} {}'.format(loaded_as, c.text)
                 out2 = c.real.run(text2)
                 ctx.count('root_tag_variants')
-                if name == loaded_as:
+                if name.startswith('<'):
+                    # a tag that resolves to a URI naming no registered class
+                    ok = out2[0] in ('rec', 'yaml')
+                elif name == loaded_as:
                     ok = out2[0] == 'ok' and CM.val_sexp(out2[1], c.model) == CM.val_sexp(c.real_out[1], c.model)
                 elif name == 'Nonexistent':
                     ok = out2[0] in ('rec', 'yaml')
